@@ -112,8 +112,15 @@ class FakeQueue:
     def _full(self):
         return self.maxsize > 0 and len(self.items) >= self.maxsize
 
+    # A timed operation (block=True with a timeout) may expire whenever what it waits for has not happened at the moment
+    # the thread is scheduled: time is not modelled, so "the timeout passes first" is one more choice of the scheduler.
     def put(self, item, block=True, timeout=None):
-        if block:
+        if block and timeout is not None:
+            self.s.point(("put_timed", self.name))
+            if self._full():
+                self.s.log("put_timeout", self.name, item)
+                raise queue.Full
+        elif block:
             self.s.point(("put", self.name), lambda: not self._full())
         else:
             self.s.point(("put_nowait", self.name))
@@ -127,7 +134,12 @@ class FakeQueue:
         return self.put(item, block=False)
 
     def get(self, block=True, timeout=None):
-        if block:
+        if block and timeout is not None:
+            self.s.point(("get_timed", self.name))
+            if not self.items:
+                self.s.log("get_timeout", self.name)
+                raise queue.Empty
+        elif block:
             self.s.point(("get", self.name), lambda: len(self.items) > 0)
         else:
             self.s.point(("get_nowait", self.name))
